@@ -98,6 +98,17 @@ impl<'a> Choices<'a> {
     }
 }
 
+/// libFuzzer input bytes -> choice sequence (little-endian u32s, last one zero-padded)
+pub fn bytes_to_choices(data: &[u8]) -> Vec<u32> {
+    data.chunks(4)
+        .map(|c| {
+            let mut b = [0u8; 4];
+            b[..c.len()].copy_from_slice(c);
+            u32::from_le_bytes(b)
+        })
+        .collect()
+}
+
 pub fn hash_of<T: Hash>(t: &T) -> u64 {
     let mut h = std::collections::hash_map::DefaultHasher::new();
     t.hash(&mut h);
